@@ -27,6 +27,13 @@ TOPOS = {
 # afterwards - what a mesh renewal does, and what the documentation prescribes after changing
 # allow_multicast / address bytes
 TOPOS["readdr"] = [O(x) for x in ("0", "1", "3", "11", "31", "13", "113")]
+# destinations that also hand system messages to update()'s caller (ret_sys_msg, always on for mesh nodes): user
+# types - 127 is the highest - are queued all the same
+TOPOS["retsys"] = [O(x) for x in ("0", "2", "12", "32")]
+# routers whose multicast level was overridden (below / above their own level): routing is by address, not by level
+TOPOS["mclevel"] = [O(x) for x in ("0", "1", "11", "111", "1111", "2")]
+NODE_ATTRS = {"retsys": {a: {"ret_sys_msg": True} for a in TOPOS["retsys"]},
+              "mclevel": {O("1"): {"multicast_level": 0}, O("11"): {"multicast_level": 0}, O("111"): {"multicast_level": 4}, O("2"): {"multicast_level": 3}}}
 PRE_ADDR = {O("0"): O("12"), O("1"): O("234"), O("3"): O("5"), O("11"): O("2"), O("31"): O("1234"), O("13"): O("4"), O("113"): O("35")}
 ROUTING_ONLY = {"mixed": {O("1"), O("2"), O("12")}}
 LENGTHS_Q = (0, 1, 24, 25, 48, 49, 144)
@@ -44,6 +51,9 @@ def template(topo, cost, frag):
         if topo == "readdr":
             for sp in specs:
                 sp["pre_addr"] = PRE_ADDR[sp["addr"]]
+        for sp in specs:
+            if sp["addr"] in NODE_ATTRS.get(topo, {}):
+                sp["attrs"] = dict(NODE_ATTRS[topo][sp["addr"]])
         t = N.Net(specs, cost_class=cost)
         if not frag:
             for n in t.nodes.values():
@@ -63,6 +73,16 @@ def run_unicast(case, chooser=None):
     src, dst = case["src"], case["dst"]
     msg = H.pattern(case["mlen"], case.get("seed", 0), salt=case["mlen"] + 3)
     obs = {"c07": [], "ret": "unset"}
+    if case.get("lose"):
+        # the k-th distinct network frame transmitted by node `lose_at` (default: the origin) is lost for good
+        # (every retransmission of it), for every k in case["lose"]
+        lose, at, order = set(case["lose"]), net.radios[case.get("lose_at", src)].name, {}
+
+        def fault(pkt):
+            if pkt.is_ack or pkt.src.name != at:
+                return False
+            return order.setdefault(pkt.payload, len(order)) in lose
+        net.w.fault = fault
 
     def hook(key, node, radio):
         bad = N.listening_violations(node, radio)
@@ -297,7 +317,8 @@ def run(tier, seed, rep, only=None):
     return dict(
         level="model_checking",
         exhaustive=True,
-        rule="every ordered (src,dst) pair of 4 topologies (chain to depth 4 with 8-hop routes, bushy, mixed routing-only/full, a tree of re-addressed nodes) x message "
+        rule="every ordered (src,dst) pair of 6 topologies (chain to depth 4 with 8-hop routes, bushy, mixed routing-only/full, a tree of re-addressed nodes, nodes with ret_sys_msg on, "
+             "a chain whose routers have overridden multicast levels) x message "
              "lengths x fragmentation on/off x API x SPI-cost class x poll-latency class (per-run classes enumerated; per-delivery latency "
              "deviations explored exhaustively up to the stated deviation bound on 6 routes). One execution = all nodes running the real "
              "update()/send() code in a deterministic discrete-event world. Non-trivial = at least one packet on the air; distinct by (case, choice list). "
